@@ -1518,3 +1518,479 @@ func ruleParsedRepeatBounded(c *eng.Ctx) {
 	}
 	_ = nOK
 }
+
+// ---------------------------------------------------------------------------------------------------------------
+// element reads at a cursor kept in a struct field
+
+type cursorSpec struct {
+	typ, data, pos string // "contentstream.Parser", "data", "pos"
+}
+
+type cursorRead struct {
+	at    ssa.Instruction
+	need  int64 // the read is data[pos+need]
+	known int64 // pos+known < len(data) is established there (-1: nothing)
+}
+
+// cursorMovers: the functions of the package that assign the cursor field, directly or through a call.
+func cursorMovers(p *eng.Prog, pkg *ssa.Package, spec cursorSpec) map[*ssa.Function]bool {
+	mv := map[*ssa.Function]bool{}
+	var fns []*ssa.Function
+	for _, fn := range p.ModuleFuncs() {
+		if fn.Pkg == pkg && fn.Blocks != nil {
+			fns = append(fns, fn)
+		}
+	}
+	for _, fn := range fns {
+		eng.Instrs(fn, true, func(in ssa.Instruction) {
+			if st, ok := in.(*ssa.Store); ok {
+				if fr, ok := eng.AsField(st.Addr); ok && fr.Field == spec.pos && strings.HasSuffix(fr.Struct, spec.typ) {
+					mv[fn] = true
+				}
+			}
+		})
+	}
+	for changed := true; changed; {
+		changed = false
+		for _, fn := range fns {
+			if mv[fn] {
+				continue
+			}
+			eng.Instrs(fn, true, func(in ssa.Instruction) {
+				if ci, ok := in.(ssa.CallInstruction); ok && !mv[fn] {
+					if g := eng.StaticCallee(ci); g != nil && mv[g] {
+						mv[fn] = true
+						changed = true
+					}
+				}
+			})
+		}
+	}
+	return mv
+}
+
+// cursorReads runs a forward must-analysis over fn: the state is the largest K for which pos+K < len(data) is known
+// to hold for the present value of the cursor field (-1: nothing known). Branch conditions that compare pos+a with
+// len(data)+b raise it on the edge where they hold, an assignment pos = pos+c lowers it by c, any other assignment of
+// the cursor and any call that may move it forget it. Every element read data[pos+k] is reported with the state there.
+func cursorReads(fn *ssa.Function, spec cursorSpec, movers map[*ssa.Function]bool, entry int64, atCall func(g *ssa.Function, k int64)) []cursorRead {
+	isField := func(v ssa.Value, name string) bool {
+		ld, ok := v.(*ssa.UnOp)
+		if !ok || ld.Op != token.MUL {
+			return false
+		}
+		fr, ok := eng.AsField(ld.X)
+		return ok && fr.Field == name && strings.HasSuffix(fr.Struct, spec.typ)
+	}
+	var posLoads []ssa.Value
+	leaf := func(v ssa.Value) (*eng.Poly, bool) {
+		if isField(v, spec.pos) {
+			posLoads = append(posLoads, v)
+			return eng.PSym("pos"), true
+		}
+		if call, ok := v.(*ssa.Call); ok && eng.CalleeName(call) == "builtin:len" && isField(call.Call.Args[0], spec.data) {
+			return eng.PSym("len"), true
+		}
+		return nil, false
+	}
+	// offset: v = pos + k with every cursor load taken in block b at or after instruction index from
+	idx := map[ssa.Instruction]int{}
+	for _, b := range fn.Blocks {
+		for i, in := range b.Instrs {
+			idx[in] = i
+		}
+	}
+	fresh := func(b *ssa.BasicBlock, from int) bool {
+		for _, l := range posLoads {
+			li, ok := l.(ssa.Instruction)
+			if !ok || li.Block() != b || idx[li] < from {
+				return false
+			}
+		}
+		return true
+	}
+	isKill := func(in ssa.Instruction) (kill bool, shift int64, shifted bool) {
+		switch x := in.(type) {
+		case *ssa.Store:
+			if fr, ok := eng.AsField(x.Addr); ok && fr.Field == spec.pos && strings.HasSuffix(fr.Struct, spec.typ) {
+				posLoads = nil
+				if p, ok := eng.IntPoly(x.Val, leaf); ok {
+					d := p.Sub(eng.PSym("pos"))
+					if r, isC := d.IsConst(); isC && r.IsInt() && r.Num().Int64() >= 0 {
+						return true, r.Num().Int64(), true
+					}
+				}
+				return true, 0, false
+			}
+		case ssa.CallInstruction:
+			g := eng.StaticCallee(x)
+			if g != nil && movers[g] {
+				return true, 0, false
+			}
+			if g == nil && !x.Common().IsInvoke() {
+				if _, isB := x.Common().Value.(*ssa.Builtin); !isB {
+					return true, 0, false // a function value: may be a closure that moves the cursor
+				}
+			}
+		}
+		return false, 0, false
+	}
+	const top = int64(1 << 30)
+	in := map[*ssa.BasicBlock]int64{}
+	for _, b := range fn.Blocks {
+		in[b] = top
+	}
+	in[fn.Blocks[0]] = entry
+	if fn.Recover != nil {
+		in[fn.Recover] = -1
+	}
+	var reads []cursorRead
+	transfer := func(b *ssa.BasicBlock, k int64, record bool) int64 {
+		lastKill := 0
+		for i, ins := range b.Instrs {
+			if record && atCall != nil {
+				if ci, ok := ins.(ssa.CallInstruction); ok {
+					if g := eng.StaticCallee(ci); g != nil && g.Pkg == fn.Pkg {
+						known := k
+						atCall(g, known)
+					}
+				}
+			}
+			if kill, shift, shifted := isKill(ins); kill {
+				if shifted && k >= 0 {
+					k -= shift
+					if k < -1 {
+						k = -1
+					}
+				} else {
+					k = -1
+				}
+				lastKill = i + 1
+				continue
+			}
+			if !record {
+				continue
+			}
+			var base, index ssa.Value
+			switch x := ins.(type) {
+			case *ssa.IndexAddr:
+				base, index = x.X, x.Index
+			case *ssa.Index:
+				base, index = x.X, x.Index
+			default:
+				continue
+			}
+			if !isField(base, spec.data) {
+				continue
+			}
+			posLoads = nil
+			p, ok := eng.IntPoly(index, leaf)
+			if !ok {
+				continue
+			}
+			d := p.Sub(eng.PSym("pos"))
+			r, isC := d.IsConst()
+			if !isC || !r.IsInt() || len(posLoads) == 0 {
+				continue
+			}
+			known := k
+			if !fresh(b, lastKill) {
+				known = -1
+			}
+			reads = append(reads, cursorRead{ins, r.Num().Int64(), known})
+		}
+		return k
+	}
+	edgeGain := func(b *ssa.BasicBlock, succ int) int64 {
+		gain := int64(-1)
+		// where in b the cursor was last moved
+		lastKill := 0
+		for i, ins := range b.Instrs {
+			if kill, _, _ := isKill(ins); kill {
+				lastKill = i + 1
+			}
+		}
+		for _, f := range eng.EdgeFacts(eng.Edge{From: b, Succ: succ}) {
+			op, x, y, ok := f.Cmp()
+			if !ok {
+				continue
+			}
+			posLoads = nil
+			px, okx := eng.IntPoly(x, leaf)
+			py, oky := eng.IntPoly(y, leaf)
+			if !okx || !oky || len(posLoads) == 0 || !fresh(b, lastKill) {
+				continue
+			}
+			// normalise to  pos + a  OP  len + b
+			var c int64
+			d := px.Sub(py) // (pos + a) - (len + b)  or  (len + b) - (pos + a)
+			flip := false
+			e := d.Sub(eng.PSym("pos")).Add(eng.PSym("len"))
+			r, isC := e.IsConst()
+			if !isC {
+				e = d.Add(eng.PSym("pos")).Sub(eng.PSym("len"))
+				r, isC = e.IsConst()
+				flip = true
+			}
+			if !isC || !r.IsInt() {
+				continue
+			}
+			ab := r.Num().Int64() // a-b (not flipped) or b-a (flipped)
+			if flip {
+				ab = -ab
+				op = eng.Swap(op)
+			}
+			switch op {
+			case token.LSS: // pos + (a-b) < len
+				c = ab
+			case token.LEQ: // pos + (a-b) <= len  ->  pos + (a-b-1) < len
+				c = ab - 1
+			default:
+				continue
+			}
+			if c > gain {
+				gain = c
+			}
+		}
+		return gain
+	}
+	for changed, rounds := true, 0; changed && rounds < 64; rounds++ {
+		changed = false
+		for _, b := range fn.Blocks {
+			if in[b] == top {
+				continue
+			}
+			out := transfer(b, in[b], false)
+			for si, sx := range b.Succs {
+				v := out
+				if g := edgeGain(b, si); g > v {
+					v = g
+				}
+				if v < in[sx] {
+					in[sx] = v
+					changed = true
+				}
+			}
+		}
+	}
+	for _, b := range fn.Blocks {
+		if in[b] != top {
+			transfer(b, in[b], true)
+		}
+	}
+	return reads
+}
+
+// R2.17 [C02, C06]
+func ruleCursorReadsGuarded(c *eng.Ctx) {
+	const R = "R2.17-CURSOR-READS-GUARDED"
+	c.Rule(R, "in the content-stream parser every read of the input at the cursor, data[pos+k], happens where pos+k < len(data) is established for the cursor's present value: by a branch condition on every path since the cursor last moved (a call that skips white space or parses a token moves it), counting pos = pos+c steps. A read after skipWhitespace without a new test is a read past the end when the stream is cut off there", 25, 0)
+	spec := cursorSpec{"contentstream.Parser", "data", "pos"}
+	var pkg *ssa.Package
+	for _, fn := range c.P.ModuleFuncs() {
+		if fn.Pkg != nil && eng.ShortPath(fn.Pkg.Pkg.Path()) == "contentstream" {
+			pkg = fn.Pkg
+		}
+	}
+	if pkg == nil {
+		c.Undec(R, "contentstream", token.NoPos, "package not found")
+		return
+	}
+	movers := cursorMovers(c.P, pkg, spec)
+	var fns []*ssa.Function
+	for _, fn := range c.P.ModuleFuncs() {
+		if fn.Pkg == pkg && fn.Blocks != nil && fn.Parent() == nil {
+			fns = append(fns, fn)
+		}
+	}
+	// what a function may assume on entry: the weakest state at any of its call sites in the package (nothing for
+	// exported functions, which anybody may call)
+	const top = int64(1 << 30)
+	entry := map[*ssa.Function]int64{}
+	for _, fn := range fns {
+		entry[fn] = top
+		if obj, ok := fn.Object().(*types.Func); ok && obj.Exported() {
+			entry[fn] = -1
+		}
+	}
+	for round := 0; round < 8; round++ {
+		next := map[*ssa.Function]int64{}
+		for _, fn := range fns {
+			next[fn] = top
+			if entry[fn] == -1 {
+				if obj, ok := fn.Object().(*types.Func); ok && obj.Exported() {
+					next[fn] = -1
+				}
+			}
+		}
+		for _, fn := range fns {
+			e := entry[fn]
+			if e == top {
+				continue // not reached yet
+			}
+			cursorReads(fn, spec, movers, e, func(g *ssa.Function, k int64) {
+				if _, in := next[g]; in && k < next[g] {
+					next[g] = k
+				}
+			})
+		}
+		same := true
+		for _, fn := range fns {
+			if next[fn] != entry[fn] {
+				same = false
+			}
+		}
+		entry = next
+		if same {
+			break
+		}
+	}
+	for _, fn := range fns {
+		e := entry[fn]
+		if e == top {
+			e = -1 // never called inside the package
+		}
+		n := 0
+		for _, r := range cursorReads(fn, spec, movers, e, nil) {
+			n++
+			key := fmt.Sprintf("%s#read%d(pos+%d)", eng.FuncName(fn), n, r.need)
+			c.Check(r.known >= r.need, R, key, r.at.Pos(), fmt.Sprintf("pos+%d < len(data) holds", r.need), fmt.Sprintf("data[pos+%d] is read where only pos+%d < len(data) is known since the cursor last moved: input that ends here (a truncated stream) panics with index out of range", r.need, r.known))
+		}
+	}
+}
+
+// DebugFloatSizes (VDEBUG=fsz): allocations sized by an integer converted from a float.
+func DebugFloatSizes(c *eng.Ctx) {
+	if os.Getenv("VDEBUG") != "fsz" {
+		return
+	}
+	for _, fn := range c.P.ModuleFuncs() {
+		if fn.Blocks == nil {
+			continue
+		}
+		eng.Instrs(fn, false, func(in ssa.Instruction) {
+			mk, ok := in.(*ssa.MakeSlice)
+			if !ok {
+				return
+			}
+			for w := range eng.Slice(mk.Len, nil) {
+				if cv, ok := w.(*ssa.Convert); ok {
+					if b, ok := cv.X.Type().Underlying().(*types.Basic); ok && b.Info()&types.IsFloat != 0 {
+						fmt.Fprintf(os.Stderr, "FSZ %s %s\n", c.P.Pos(mk.Pos()), eng.FuncName(fn))
+					}
+				}
+			}
+		})
+	}
+}
+
+// R2.18 [C02]
+func ruleCoordinateCountsCapped(c *eng.Ctx) {
+	const R = "R2.18-COORDINATE-COUNTS-CAPPED"
+	c.Rule(R, "an integer converted from a floating-point quantity (a page width from the MediaBox, a text position from the content stream: numbers written in the file) is compared with a cap before it decides how much is allocated or written: where it reaches the length of a make, the count of strings.Repeat or the bound of a counting loop that writes or appends, the value is proven to be at most 2^24 there (a comparison with a constant, a clamp, min). A page 2^31 units wide otherwise sizes a histogram, and a Td of 2^63 is answered with that many spaces", 3, 1)
+	const cap = int64(1 << 24)
+	isFloatConv := func(v ssa.Value) bool {
+		cv, ok := v.(*ssa.Convert)
+		if !ok {
+			return false
+		}
+		b, ok := cv.X.Type().Underlying().(*types.Basic)
+		if !ok || b.Info()&types.IsFloat == 0 {
+			return false
+		}
+		bt, ok := cv.Type().Underlying().(*types.Basic)
+		return ok && bt.Info()&types.IsInteger != 0
+	}
+	for _, fn := range c.P.ModuleFuncs() {
+		if fn.Blocks == nil || fn.Parent() != nil {
+			continue
+		}
+		type sink struct {
+			in    ssa.Instruction
+			count ssa.Value
+			kind  string
+			host  *ssa.Function
+		}
+		var sinks []sink
+		eng.Instrs(fn, true, func(in ssa.Instruction) {
+			if mk, ok := in.(*ssa.MakeSlice); ok {
+				sinks = append(sinks, sink{in, mk.Len, "length of make", in.Parent()})
+			}
+		})
+		for _, s := range repeatSinks(fn) {
+			sinks = append(sinks, sink{s.at, s.count, s.kind, s.fn})
+		}
+		n := 0
+		for _, s := range sinks {
+			if _, isC := eng.ConstInt(s.count); isC {
+				continue
+			}
+			// float-derived integers that reach the count without passing a value proven <= cap
+			var open []ssa.Value
+			seen := map[ssa.Value]bool{}
+			var walk func(v ssa.Value, depth int)
+			walk = func(v ssa.Value, depth int) {
+				if v == nil || seen[v] || depth > 12 {
+					return
+				}
+				seen[v] = true
+				if bounded(s.host, v, cap, true, s.in.Block(), 0) {
+					return
+				}
+				if isFloatConv(v) {
+					open = append(open, v)
+					return
+				}
+				switch x := v.(type) {
+				case *ssa.Phi:
+					for _, e := range x.Edges {
+						walk(e, depth+1)
+					}
+				case *ssa.BinOp:
+					switch x.Op {
+					case token.ADD, token.MUL:
+						walk(x.X, depth+1)
+						walk(x.Y, depth+1)
+					case token.SUB, token.QUO, token.SHR:
+						walk(x.X, depth+1)
+					}
+				case *ssa.ChangeType:
+					walk(x.X, depth+1)
+				case *ssa.Convert:
+					walk(x.X, depth+1)
+				case *ssa.UnOp:
+					if x.Op == token.MUL {
+						if al, ok := x.X.(*ssa.Alloc); ok {
+							for _, r := range *al.Referrers() {
+								if st, ok := r.(*ssa.Store); ok && st.Addr == ssa.Value(al) {
+									walk(st.Val, depth+1)
+								}
+							}
+						}
+					}
+				}
+			}
+			walk(s.count, 0)
+			hasFloat := false
+			for w := range eng.Slice(s.count, nil) {
+				if isFloatConv(w) {
+					hasFloat = true
+				}
+			}
+			if !hasFloat {
+				continue
+			}
+			n++
+			key := fmt.Sprintf("%s#%s%d", eng.FuncName(fn), strings.ReplaceAll(s.kind, " ", "-"), n)
+			pos := s.in.Pos()
+			if pos == token.NoPos {
+				pos = s.count.Pos()
+			}
+			where := ""
+			if len(open) > 0 {
+				where = c.P.Pos(open[0].Pos())
+			}
+			c.Check(len(open) == 0, R, key, pos, "every coordinate-derived integer is capped before it is used", "the "+s.kind+" is computed from an integer converted from a floating-point value at "+where+" that is not proven to stay below a cap here: a width or position of 2^31 or 2^63 written in the file allocates or writes without bound (out of memory, or makeslice: len out of range)")
+		}
+	}
+}
